@@ -7,6 +7,7 @@ package main
 // abstractly over the same pair of lazily revealed tapes.
 
 import (
+	"time"
 	"fmt"
 	"gdsa/refs/dpkgorder"
 	"go/token"
@@ -159,6 +160,9 @@ func traceStrings(trace []string) (string, string) {
 }
 
 // runProduct explores the synchronous product of impl and ref over two tapes.
+// productBudget bounds the wall time of one symbolic product exploration (today's tree needs about two seconds).
+var productBudget = 40 * time.Second
+
 func runProduct(pi *Prog, impl *ssa.Function, pr *Prog, ref *ssa.Function, alpha *Alphabet, maxWindow, maxStates int) *productResult {
 	res := &productResult{}
 	mi := NewMachine(pi, alpha)
@@ -283,9 +287,15 @@ func runProduct(pi *Prog, impl *ssa.Function, pr *Prog, ref *ssa.Function, alpha
 		work = append(work, pst{a, b})
 	}
 	push(a0, b0)
+	started := time.Now()
 	for len(work) > 0 {
 		if len(seen) > maxStates {
 			res.Undecided = append(res.Undecided, fmt.Sprintf("state cap %d reached", maxStates))
+			break
+		}
+		if len(seen)%256 == 0 && time.Since(started) > productBudget {
+			// the symbolic product is a means, not the claim: past the budget the bounded comparison decides
+			res.Undecided = append(res.Undecided, fmt.Sprintf("the symbolic product did not finish within %v (%d states)", productBudget, len(seen)))
 			break
 		}
 		if len(res.Disagree) > 20 || len(res.Panics) > 20 || len(res.NonTerm) > 20 {
@@ -344,6 +354,46 @@ func reachableRepoFuncs(fn *ssa.Function) []*ssa.Function {
 	return r
 }
 
+var registeredCache = map[*ssa.Program][]*ssa.Function{}
+
+// registeredFuncs: repository functions whose value a package initialiser uses as an operand (stored into a
+// package-level variable, table or map).
+func registeredFuncs(prog *ssa.Program) []*ssa.Function {
+	if r, ok := registeredCache[prog]; ok {
+		return r
+	}
+	var out []*ssa.Function
+	seen := map[*ssa.Function]bool{}
+	for _, pkg := range prog.AllPackages() {
+		init := pkg.Func("init")
+		if init == nil || !inRepoOrRef(init) {
+			continue
+		}
+		for _, b := range init.Blocks {
+			for _, ins := range b.Instrs {
+				if _, isCall := ins.(*ssa.Call); isCall {
+					continue
+				}
+				for _, op := range ins.Operands(nil) {
+					var f *ssa.Function
+					switch x := (*op).(type) {
+					case *ssa.Function:
+						f = x
+					case *ssa.MakeClosure:
+						f, _ = x.Fn.(*ssa.Function)
+					}
+					if f != nil && !seen[f] && inRepoOrRef(f) {
+						seen[f] = true
+						out = append(out, f)
+					}
+				}
+			}
+		}
+	}
+	registeredCache[prog] = out
+	return out
+}
+
 func reachableRepoFuncs0(fn *ssa.Function) []*ssa.Function {
 	seen := map[*ssa.Function]bool{}
 	var out []*ssa.Function
@@ -359,6 +409,15 @@ func reachableRepoFuncs0(fn *ssa.Function) []*ssa.Function {
 				switch x := ins.(type) {
 				case *ssa.Call:
 					walk(x.Call.StaticCallee())
+					if x.Call.StaticCallee() == nil && !x.Call.IsInvoke() {
+						// a call through a function value: every function a package initialiser registers in a
+						// package-level table (a map or slice of constructors, ...) with this signature may be meant
+						for _, g := range registeredFuncs(f.Prog) {
+							if types.Identical(g.Signature, x.Call.Signature()) {
+								walk(g)
+							}
+						}
+					}
 				case *ssa.MakeClosure:
 					walk(x.Fn.(*ssa.Function))
 				}
@@ -414,6 +473,9 @@ func runEquivalence(p *Prog, rp *Report, r *Rule, thorough bool) (*productResult
 		// a real disagreement beats an undecided result
 		if len(res.Disagree)+len(res.Panics)+len(res.NonTerm) > 0 && len(best.Disagree)+len(best.Panics)+len(best.NonTerm) == 0 {
 			best = res
+		}
+		if len(res.Undecided) > 0 && strings.Contains(res.Undecided[len(res.Undecided)-1], "did not finish within") {
+			break // the other reference variant would take as long
 		}
 	}
 	return best, impl
@@ -548,10 +610,21 @@ func checkWeights(p *Prog, r *Rule, cmp *ssa.Function) {
 		m.Base = base
 	}
 	weights := map[byte]int64{}
+	var mx *Machine
 	for c := 0; c < alpha.N(); c++ {
 		st := m.NewState(wf, []Val{SymV{c}}, 0)
 		out := m.Run(st)
 		by, _ := alpha.Single(c)
+		if len(out) != 1 || out[0].Status != stRet {
+			// table lookups, strings.IndexRune, ...: evaluate on the concrete byte instead
+			if mx == nil {
+				mx = NewMachine(p, nil)
+				if base := initState(mx, "version"); base.Status != stStuck {
+					mx.Base = base
+				}
+			}
+			out = mx.Run(mx.NewState(wf, []Val{int64(by)}, 0))
+		}
 		if len(out) != 1 || out[0].Status != stRet {
 			msg := "forked"
 			if len(out) > 0 {
